@@ -39,12 +39,14 @@ GetData(size, addr, sel) ==
 \* read a quantity back after one setter / flag / composite call (or from the power-on defaults)
 GetQs == {"freq", "amp", "offs", "skew", "plen", "order", "PATT:TYPE", "PATT:BSH"}          \* (the driver has no output-state query)
 \* (the quantity read is the one just written - or a few fixed ones after the composite call - to keep the instance small)
-Related(q) == \/ last.op = "init"
+Related(q, sel) == \/ last.op = "init"
               \/ (last.op = "set" /\ q = last.q)
               \/ (last.op = "flag" /\ q = last.verb)
-              \/ (last.op = "config" /\ q \in {"amp", "order", "PATT:TYPE", "freq"})
+              \/ (last.op = "config" /\ sel \in {<<>>, <<0, 5>>}
+                   /\ \/ (q = "amp" /\ last.c.amp # <<>>) \/ (q = "order" /\ last.c.order # <<>> /\ last.c.mode = <<1>>)
+                      \/ (q = "PATT:TYPE" /\ last.c.mode # <<>>) \/ (q = "freq" /\ last.c.freq # <<>> /\ sel = <<>>))
 Get(q, sel) ==
-  /\ last.op \in {"init", "set", "flag", "config"} /\ Related(q)
+  /\ last.op \in {"init", "set", "flag", "config"} /\ Related(q, sel)
   /\ cmds' = GetQueries(q, sel) /\ mem' = mem /\ nops' = nops /\ cfg' = cfg
   /\ last' = [op |-> "get", q |-> q, sel |-> sel, vals |-> GetVals(cfg, q, sel), prev |-> last, warn |-> (q # "freq" /\ ChWarn(sel))]
 OptOf(S) == {<<>>} \cup {<<v>> : v \in S}
